@@ -6,3 +6,5 @@
 (define-fun docKey ((c Str) (id Str)) Str (scat (docPrefix c) id))
 ; key space of a collection: its catalog entry and everything under "c:<name>;"
 (define-fun inKS ((c Str) (k Str)) Bool (or (= k (collKey c)) (hasPrefix k (collPrefix c))))
+; index entries of field f of collection c live under "c:<c>;i:<f>" (mirrors rangeIndex.getKeyPrefix)
+(define-fun idxPrefix ((c Str) (f Str)) Str (scat (scat (scat (lit "c:") c) (lit ";i:")) f))
